@@ -159,7 +159,7 @@ class EncoderSelector:
             # Equalize distance correlations
             df = pd.DataFrame(data=scoring)
             unique_values, unique_indices_list = np.unique(df[['imp_ratio', 'inf_idx']].values, axis=0, return_inverse=True)
-            dist_corr_values = df.dist_corr.values
+            dist_corr_values = df.dist_corr.values.copy()  # The values array of a DataFrame column can be read-only
             for i_unique in range(len(unique_values)):
                 unique_indices, = np.where(unique_indices_list == i_unique)
                 if len(unique_indices) > 1:
